@@ -146,6 +146,9 @@ def directed_cases():
            "ext": [(6.0, "stop_at_next", 0)], "jitter": 0.0, "horizon": 12}
     yield {"k": "run", "period_ms": 100.0, "kind": "sync", "durs": [0.0], "raises": [True],
            "ext": [], "jitter": 0.0, "horizon": 8}
+    # restart exactly at a tick: the timer has fired but the coroutine body has not started yet
+    yield {"k": "run", "period_ms": 1000.0, "kind": "coro", "durs": [0.5, 0.0, 1.0], "raises": [False, False, False],
+           "ext": [(1.0, "stop_start", 0)], "jitter": 0.0, "horizon": 12}
     # restart while an invocation is still in flight
     yield {"k": "run", "period_ms": 100.0, "kind": "coro", "durs": [3.0], "raises": [False],
            "ext": [(1.5, "stop_start", 0)], "jitter": 0.0, "horizon": 12}
@@ -292,7 +295,7 @@ def run_run(case, ctx):
     period_ms = case["period_ms"]
     P = period_ms / 1000.0
     st = {"inflight": 0, "stopped": True, "gen": 0, "runs": 0, "seq": 0, "last_exit": -1, "last_sched": -1,
-          "grid": None, "prev": None, "restart_inflight": False, "slow": 0, "raised": 0, "viol": False}
+          "grid": None, "prev": None, "restart_inflight": False, "restart_at_tick": False, "entered_since_sched": True, "slow": 0, "raised": 0, "viol": False}
 
     async def main():
         io = IOLoop.current()
@@ -318,12 +321,14 @@ def run_run(case, ctx):
                     check_deadline(ctx, g, o, now, deadline, case["jitter"], "run",
                                    {"period_ms": period_ms, "gen": st["gen"]})
                 st["prev"] = deadline
+                st["entered_since_sched"] = False
             return orig_add_timeout(deadline, callback, *a, **kw)
 
         io.add_timeout = add_timeout
 
         def enter():
             st["seq"] += 1
+            st["entered_since_sched"] = True
             i = st["runs"]
             st["runs"] += 1
             ctx.count("run_callbacks")
@@ -332,11 +337,13 @@ def run_run(case, ctx):
                               {"t": io.time() - vloop.EPOCH, "run_index": i})
             st["inflight"] += 1
             if st["inflight"] > 1:
-                if st["restart_inflight"]:
-                    ctx.violation("run/overlap-after-restart-during-inflight-invocation",
-                                  "stop() then start() while a coroutine invocation was still running: the callback is "
-                                  "started again while that invocation is unfinished (and two schedule chains stay alive)",
-                                  {"t": io.time() - vloop.EPOCH, "run_index": i, "inflight": st["inflight"]})
+                if st["restart_inflight"] or st["restart_at_tick"]:
+                    ctx.violation("run/overlap-after-stop-then-start",
+                                  "after stop() then start() issued while an invocation from before the stop() was still "
+                                  "running (or its timer had fired but its body not yet started) the callback is started "
+                                  "while the previous invocation is unfinished: two schedule chains stay alive",
+                                  {"t": io.time() - vloop.EPOCH, "run_index": i, "inflight": st["inflight"],
+                                   "restart_while_inflight": st["restart_inflight"], "restart_at_tick": st["restart_at_tick"]})
                 else:
                     ctx.violation("run/coroutine-callback-overlap",
                                   "coroutine callback started while its previous invocation was still running",
@@ -387,6 +394,11 @@ def run_run(case, ctx):
             if st["inflight"]:
                 st["restart_inflight"] = True
                 ctx.count("restart_while_invocation_inflight")
+            if st["prev"] is not None and not st["entered_since_sched"] and st["prev"] <= io.time() + 4 * math.ulp(io.time()):
+                # the last scheduled deadline has been reached but its invocation has not started: its timer may
+                # already have fired (coroutine body pending) when stop() ran
+                st["restart_at_tick"] = True
+                ctx.count("restart_at_a_tick_instant")
             st["gen"] += 1
             st["stopped"] = False
             st["grid"] = Grid(io.time(), F(period_ms))
